@@ -21,8 +21,10 @@ C12OK(rec) ==
        /\ WF(post)
        /\ Contract(rec, Seqs(ToSt(rec.pre)), Seqs(post), rec.ret, rec.ev)
 
+C15OK(rec) == rec.op = "clear" => C12OK(rec)
 VARIABLE i
 Judge(rec) ==
+    /\ (Level # 2 \/ C15OK(rec) \/ PrintT(<<"L2FAIL", "C15", rec.id>>))
     /\ (Level # 2 \/ C12OK(rec) \/ PrintT(<<"L2FAIL", "C12", rec.id>>))
     /\ (Level # 1 \/ StepOK(rec) \/ PrintT(<<"L1DRIFT", "dlist", rec.id>>))
 TInit == i = 1
